@@ -152,6 +152,25 @@ def check_case(ctx, case, pending):
         ctx.violation("C05:round-trip", rt, case)
     pending.append((case, None, {"op": "wf_check", "before": o["before"], "after": o["after"], "emptied": emptied_blocks(o),
                                  "need_addr": True, "closure_only": False}, o))
+    # every recorded insert/delete of this run on the Lean model (the special modules and patches of this runner -
+    # encodings, .bss, aligned data, added functions with cold parts - do not come up in the shared campaign)
+    recs = [r for r in o["rec"].records if "after" in r and not r.get("raised")]
+    if recs and ctx.driver_ok:
+        try:
+            ans = ask_driver([{"op": "ir_op", "ir": r["before"], "do": r["do"]} for r in recs])
+        except Exception as e:  # noqa: BLE001
+            ctx.driver_ok = False
+            ctx.notes.append("driver failure: %r" % (e,))
+            ans = []
+        for r, m in zip(recs, ans):
+            ctx.count("corr:" + r["do"]["kind"])
+            if "ir" not in m:
+                ctx.mismatch("model refuses %s that the code performs: %s" % (r["do"]["kind"], m.get("err")), case)
+                continue
+            ca, _ = irdump.canon(r["after"])
+            cm, _ = irdump.canon(m["ir"])
+            if ca != cm:
+                ctx.mismatch("IR after %s differs between code and model at %s" % (r["do"]["kind"], irdump.diff_paths(ca, cm)[:4]), case)
     # (b) fault injection into every patch callback
     npatches = sum(1 for e in case.get("edits", []) if e["op"] != "delete")
     for k in range(npatches):
